@@ -194,12 +194,22 @@ macro_rules! numtraits {
         impl<const N: usize> Integer for $BInt<N> {
             #[inline]
             fn div_floor(&self, other: &Self) -> Self {
-                *self / *other
+                let (d, r) = (*self / *other, *self % *other);
+                if (r.is_positive() && other.is_negative()) || (r.is_negative() && other.is_positive()) {
+                    d - Self::ONE
+                } else {
+                    d
+                }
             }
 
             #[inline]
             fn mod_floor(&self, other: &Self) -> Self {
-                *self % *other
+                let r = *self % *other;
+                if (r.is_positive() && other.is_negative()) || (r.is_negative() && other.is_positive()) {
+                    r + *other
+                } else {
+                    r
+                }
             }
 
             #[inline]
@@ -240,7 +250,7 @@ macro_rules! numtraits {
 
             #[inline]
             fn div_rem(&self, other: &Self) -> (Self, Self) {
-                (self.div_floor(other), self.mod_floor(other))
+                (*self / *other, *self % *other)
             }
         }
 
